@@ -491,6 +491,17 @@ def adopt(obj):
     return FeatureIntervalCollection([obj, sib], feature_collection_id="adopter", qualifiers={"adopter": ["q"]}, parent_or_seq_chunk_parent=par)
 
 
+ADOPT_BARE = "ENV:adopt-bare"  # ... of a gene / feature collection that brings NO parent: nothing about the child may change
+
+
+def adopt_bare(obj):
+    if isinstance(obj, TranscriptInterval):
+        sib = _tx([(15, 18)], "+", None, 0, None, qualifiers={"sib": ["1"]})
+        return GeneInterval([obj, sib], gene_id="bare-adopter")
+    sib = lib.mk_feat([(15, 18)], "+", None, sequence_name="chrV", feature_name="sib", feature_types=["zz"])
+    return FeatureIntervalCollection([obj, sib], feature_collection_id="bare-adopter")
+
+
 def content(obj):
     """what an interval says about ITSELF (its dictionary form and type set), independent of who adopted it"""
     import copy
@@ -502,6 +513,9 @@ def content(obj):
 def env_action(name, spec, obj=None):
     if name == ADOPT:
         answer(lambda: adopt(obj))
+        return
+    if name == ADOPT_BARE:
+        answer(lambda: adopt_bare(obj))
         return
     if name == "ENV:evict":
         for i in range(parent_mod.PARENT_CACHE_SIZE + 1):
@@ -559,6 +573,7 @@ def explore(res, spec, depth, sub=(0, 1)):
     envs = list(ENV)
     if adoptable(spec):
         envs.append(ADOPT)
+        envs.append(ADOPT_BARE)
         for n in names:
             bootstrap.clear_global_caches()
             t = build(spec)
@@ -577,7 +592,7 @@ def explore(res, spec, depth, sub=(0, 1)):
                 continue  # the first operation of a history is split over sub-shards
             if opn in ("ENV:twin", "ENV:alias") and any(x not in ("ENV:twin", "ENV:alias") for x in hist):
                 continue  # twin/alias are only meaningful before the object exists
-            if opn == ADOPT and ADOPT in hist:
+            if opn in (ADOPT, ADOPT_BARE) and (ADOPT in hist or ADOPT_BARE in hist):
                 continue  # adopted at most once
             obj = rebuild(spec, hist, all_ops)
             if opn.startswith("ENV:"):
@@ -586,8 +601,12 @@ def explore(res, spec, depth, sub=(0, 1)):
                     obj = rebuild(spec, newh, all_ops)
                 else:
                     before = content(obj) if opn == ADOPT else None
+                    before_all = snapshot(obj) if opn == ADOPT_BARE else None
                     env_action(opn, spec, obj)
                     newh = hist + (opn,)
+                    if opn == ADOPT_BARE and snapshot(obj) != before_all:
+                        # a collection that has no parent of its own has nothing to give: the child keeps parent, hash, everything
+                        res.deviation("adopt-bare", dict(spec=spec, history=list(hist), op=ADOPT_BARE), _short(snapshot(obj)), _short(before_all), sig="bare-adoption-changes-child")
                     if opn == ADOPT and content(obj) != before:
                         # being placed in a collection gives the child a parent, never other content (its siblings' types ...)
                         res.deviation("adopt", dict(spec=spec, history=list(hist), op=ADOPT), _short(content(obj)), _short(before), sig="adoption-changes-content")
